@@ -54,7 +54,7 @@ def strategy(tier):
     return st.builds(lambda b, route, run, tnone, ms, wm: dict(b, route=route, run=run, target_none=tnone, main_script=ms, wait_mode=wm), base,
                      st.sampled_from(['ctor', 'ctor', 'create']), st.sampled_from([None, None, None, True, False]),
                      st.sampled_from([False] * 9 + [True]), st.sampled_from([None] * 40 + ['point', 'raise', 'plain']),
-                     st.sampled_from(['plain', 'plain', 'timed']))
+                     st.sampled_from(['plain', 'plain', 'timed', 'poll:0.001', 'poll:0', 'poll:0.01']))
 
 
 def dejson(v):
@@ -249,6 +249,24 @@ def run_case(case, ctx):
                         ok = bounded(w.wait, GUARD, 5)
                         if ok:
                             break
+                elif str(case.get('wait_mode', '')).startswith('poll:'):
+                    # the polling idiom `while not w.wait(t): ...` with a timeout far below the time the result needs to travel: many timed
+                    # waits expire while the (large) result is still being received (round-4 seed C02-m8: every one started another reader)
+                    out.label('polled_wait')
+                    t_ = float(case['wait_mode'].split(':')[1])
+                    ok = False
+                    polls = 0
+                    while time.monotonic() - t0 < GUARD:
+                        polls += 1
+                        ok = bounded(w.wait, GUARD, t_)
+                        if ok:
+                            break
+                        if t_ == 0:
+                            time.sleep(0.0005)
+                    if polls > 1:
+                        out.label('polled_wait_expired_at_least_once')
+                    if not ok:
+                        raise Blocked()
                 else:
                     ok = bounded(w.wait, GUARD)
             except Blocked:
